@@ -437,27 +437,21 @@ def opPanelForces : Op K := fun n a =>
   let N := n.getD 0 0
   outPts #[] N (fun m => V3.smul (at_ a 0 * at_ a (1 + m)) (V3.cross (pts a (1 + N) m) (pts a (1 + 4 * N) m)))
 
-/-- the whole `VLMStates` pipeline.
-    ints: rotational, ns (nx ny sym left ground)* ; floats: alpha beta v rho omega[3] cg[3] h meshes…
-    → circulations[N], panel forces[N,3], mtx[N,N], rhs[N] -/
-def opVLMStates : Op K := fun n a =>
-  let rot := flag n 0
-  let (surfs, _) := vlmSurfs n 1 a 11
-  let f : VLM.Flow K := { alpha := at_ a 0, beta := at_ a 1, v := at_ a 2, rho := at_ a 3, omega := pts a 4 0, cg := pts a 7 0,
-                          h := at_ a 10, rotational := rot }
+/-- core of the `VLMStates` pipeline on materialised data: returns (circulations, panel forces, matrix rows, rhs).
+    `nrmOverride`: when given, these panel normals (global panel order) replace the ones computed from the meshes
+    (used by the Prandtl–Glauert pipeline, whose normals are transformed, not recomputed). -/
+def vlmCore (surfs : List (VLM.Surf K)) (f : VLM.Flow K) (nrmOverride : Option (Nat → V3 K) := none) :
+    Array K × Array (V3 K) × Array (Array K) × Array K :=
   let N := VLM.totalPanels surfs
-  -- materialise the vortex meshes (they are referenced O(N²) times)
-  let surfsM : List (VLM.Surf K) := surfs
-  let vms : Array (Array K) := (surfsM.map fun s =>
+  let vms : Array (Array K) := (surfs.map fun s =>
       outMesh #[] (if s.ground then 2 * s.nx else s.nx) (if s.sym then 2 * s.ny - 1 else s.ny)
         (VLM.vortexMesh s (deg2rad f.alpha) f.h)).toArray
-  -- influence with materialised vortex meshes (same definition as `VLM.influence`)
   let infl := fun (p : V3 K) (m : Nat) => Id.run do
     let mut off := 0
     let mut k := 0
     let mut res : V3 K := 0
     let mut found := false
-    for s in surfsM do
+    for s in surfs do
       if !found then
         if m < off + s.npanels then
           let l := m - off
@@ -469,21 +463,116 @@ def opVLMStates : Op K := fun n a =>
         k := k + 1
     return res
   let locs : Array (VLM.Surf K × Nat × Nat) := (Array.range N).filterMap fun m => VLM.locate surfs m
-  let A : Array (Array K) := locs.map fun (s, i, j) =>
-    (Array.range N).map fun m => V3.dot (infl (VLM.collPt s i j) m) (VLM.normal s i j)
-  let b : Array K := (Array.range N).map fun m => VLM.rhs surfs f m
+  let nrm : Nat → V3 K := match nrmOverride with
+    | some g => g
+    | none => fun m => match locs[m]? with
+      | some (s, i, j) => VLM.normal s i j
+      | none => 0
+  let A : Array (Array K) := locs.mapIdx fun r (s, i, j) =>
+    (Array.range N).map fun m => V3.dot (infl (VLM.collPt s i j) m) (nrm r)
+  let b : Array K := locs.mapIdx fun r (s, i, j) => -(V3.dot (VLM.onset f (VLM.collPt s i j)) (nrm r))
   let g := gaussSolve N A b
   let gamma := fun m => at_ g m
-  -- forces, with the materialised influence
   let forces : Array (V3 K) := locs.mapIdx fun m (s, i, j) =>
     let vel := VLM.onset f (VLM.collPt s i j)
       + V3.sumTo N (fun k => V3.smul (gamma k) (infl (VLM.forcePt s i j) k))
     V3.smul (f.rho * VLM.horseshoe surfs gamma m) (V3.cross vel (VLM.boundVec s i j))
+  (g, forces, A, b)
+
+/-- the whole `VLMStates` pipeline.
+    ints: rotational, ns (nx ny sym left ground)* ; floats: alpha beta v rho omega[3] cg[3] h meshes…
+    → circulations[N], panel forces[N,3], mtx[N,N], rhs[N] -/
+def opVLMStates : Op K := fun n a =>
+  let rot := flag n 0
+  let (surfs, _) := vlmSurfs n 1 a 11
+  let f : VLM.Flow K := { alpha := at_ a 0, beta := at_ a 1, v := at_ a 2, rho := at_ a 3, omega := pts a 4 0, cg := pts a 7 0,
+                          h := at_ a 10, rotational := rot }
+  let (g, forces, A, b) := vlmCore surfs f
   Id.run do
     let mut o : Array K := g
     for v in forces do o := pushV3 o v
     for r in A do o := o ++ r
     return o ++ b
+
+/-- `CompressibleVLMStates` (no rotation rates): rotate meshes and normals into the wind frame, stretch, solve the
+    incompressible problem at alpha = beta = 0, unscale the forces, rotate back.
+    ints: ns (nx ny sym left ground)* ; floats: alpha beta v rho Mach meshes… → panel forces[N,3] -/
+def opCompressibleStates : Op K := fun n a =>
+  let (surfs, _) := vlmSurfs n 0 a 5
+  let al := deg2rad (at_ a 0); let be := deg2rad (at_ a 1)
+  let B := PG.betaPG (at_ a 4)
+  -- transformed surfaces (materialised)
+  let tsurfs : List (VLM.Surf K) := surfs.map fun s =>
+    let arr := outMesh #[] s.nx s.ny (fun i j => PG.scaleGeom B (PG.toWind al be (s.mesh i j)))
+    { s with mesh := mesh arr 0 s.ny }
+  -- normals of the ORIGINAL meshes, rotated and scaled (x * beta), not renormalised
+  let nrmArr : Array (V3 K) := Id.run do
+    let mut o : Array (V3 K) := #[]
+    for s in surfs do
+      for i in [0:s.nx-1] do
+        for j in [0:s.ny-1] do o := o.push (PG.scaleNormal B (PG.toWind al be (VLM.normal s i j)))
+    return o
+  let f : VLM.Flow K := { alpha := 0, beta := 0, v := at_ a 2, rho := at_ a 3, omega := 0, cg := 0, h := 0, rotational := false }
+  let (_, forces, _, _) := vlmCore tsurfs f (some fun m => nrmArr.getD m 0)
+  Id.run do
+    let mut o : Array K := #[]
+    for v in forces do o := pushV3 o (PG.fromWind al be (PG.unscaleForce B v))
+    return o
+
+/-- coupled aerostructural state of one surface by block Gauss–Seidel (no weight relief):
+    ints: nx ny sym left ; floats: alpha beta v rho fem_origin mesh[nx,ny,3] nodes[ny,3] kloc[ne,12,12]
+    → disp[ny,6], sec_forces[N,3], loads[ny,6], iterations -/
+def opAeroStructCoupled : Op K := fun n a =>
+  let nx := n[0]!; let ny := n[1]!; let sym := flag n 2; let left := flag n 3
+  let ne := ny - 1
+  let oM := 5; let oN := oM + 3 * nx * ny; let oK := oN + 3 * ny
+  let m0 := mesh a oM ny
+  let nodes := pts a oN
+  let kloc := fun e r c => at_ a (oK + 144*e + 12*r + c)
+  let size := 6 * ny + 6
+  let Kf := FEM.assembleK ny (FEM.clampIndex ny sym) kloc
+  let Kmat : Array (Array K) := (Array.range size).map fun r => (Array.range size).map fun c => Kf r c
+  let f : VLM.Flow K := { alpha := at_ a 0, beta := at_ a 1, v := at_ a 2, rho := at_ a 3, omega := 0, cg := 0, h := 0, rotational := false }
+  Id.run do
+    let mut disp : Array K := Array.replicate (6 * ny) 0
+    let mut forcesOut : Array (V3 K) := #[]
+    let mut loadsOut : Array K := #[]
+    let mut its := 0
+    for _ in [0:60] do
+      let d := disp
+      let dispT : Pts K := fun j => ⟨at_ d (6*j), at_ d (6*j+1), at_ d (6*j+2)⟩
+      let T : Nat → M3 K := fun j => transformationMatrix (⟨at_ d (6*j+3), at_ d (6*j+4), at_ d (6*j+5)⟩ : V3 K)
+      let dmArr := outMesh #[] nx ny (displacementTransfer m0 nodes dispT T)
+      let dm := mesh dmArr 0 ny
+      let s : VLM.Surf K := { nx := nx, ny := ny, sym := sym, left := left, ground := false, mesh := dm }
+      let (_, forces, _, _) := vlmCore [s] f
+      let F : Nat → Nat → V3 K := fun i j => forces.getD (i * (ny - 1) + j) 0
+      let loads : Array K := Id.run do
+        let mut o : Array K := #[]
+        for j in [0:ny] do
+          o := pushV3 o (LoadTransfer.force nx ny F j)
+          o := pushV3 o (LoadTransfer.moment nx ny (dec 25 100) (at_ a 4) dm F j)
+        return o
+      let rhs := (Array.range size).map fun r => FEM.createRHS ny (vec loads 0) r
+      let u := gaussSolve size Kmat rhs
+      let newDisp := u.extract 0 (6 * ny)
+      -- convergence measure on the values (works for Float and for duals through `<` on the value part)
+      let mut diff : K := 0
+      let mut scale : K := 0
+      for k in [0:6*ny] do
+        let e := Elem.abs (at_ newDisp k - at_ disp k)
+        if diff < e then diff := e
+        let v := Elem.abs (at_ newDisp k)
+        if scale < v then scale := v
+      disp := newDisp
+      forcesOut := forces
+      loadsOut := loads
+      its := its + 1
+      if diff < dec 1 10000000000000 * scale then break
+    let mut o : Array K := disp
+    for v in forcesOut do o := pushV3 o v
+    o := o ++ loadsOut
+    return o.push ((its : Nat) : K)
 
 /-- ints: npts, toWind(1)/fromWind(0) ; floats: alpha beta (rad), vectors[npts,3] → rotated vectors -/
 def opPGRotate : Op K := fun n a =>
@@ -670,6 +759,8 @@ def ops : List (String × Op K) := [
   ("RotationalVelocity", opRotationalVelocity),
   ("PanelForces", opPanelForces),
   ("VLMStates", opVLMStates),
+  ("CompressibleStates", opCompressibleStates),
+  ("AeroStructCoupled", opAeroStructCoupled),
   ("PGRotate", opPGRotate),
   ("PGScale", opPGScale),
   ("Mux", opMux),
